@@ -33,6 +33,8 @@ var envConcPhases = []struct{ name, what string }{
 	{"churn", "one goroutine deletes 400 old symbols of a scope while another defines 200 new ones; every Define that returned nil is there afterwards, every deleted symbol is gone"},
 	{"snapshot", "writer: Define(v_i), DefineType(t_i) on one scope; readers: Copy / DeepCopy and symbol listings"},
 	{"lockorder", "a chain of scopes root > mod > sub: Addr / Get / Set from the inner scopes (they climb to the parent) against path lookups from the outer scopes (they descend into modules), with definitions queued on every scope"},
+	{"reentrant", "a scope whose external lookup calls back into the scope it serves: a lazy loader that binds what it loads (Get / Type / Addr through it), and a read-only alias lookup that resolves through the scope while other goroutines define symbols on it"},
+	{"widevalues", "a variable holding a struct of 16 words with storage of its own: one goroutine sets it (SetValue with same-typed values whose fields are all equal), others Get it, Copy the scope and read the copy; every read sees the fields of one set"},
 	{"oddvalues", "a scope that holds values reflect refuses to copy / set / read (an unexported field of a host struct): Copy, DeepCopy, String under recover, then ordinary operations on the same scope"},
 	{"stress", "8 goroutines x 400 random operations incl. String, DefineType, Type, DeepCopy, symbol listings on one scope"},
 }
@@ -84,6 +86,23 @@ func streamEnvConcIsolated(o *Out, r *rand.Rand, n int, thorough bool) {
 			o.hashes[fmt.Sprintf("%s-%d", ph.name, i)] = true
 		}
 	}
+}
+
+// aliasLookup is a read-only external lookup that resolves one name through the scope it serves
+type aliasLookup struct{ e *env.Env }
+
+func (l aliasLookup) Get(name string) (reflect.Value, error) {
+	if name != "alias" {
+		return reflect.Value{}, fmt.Errorf("not found")
+	}
+	return l.e.GetValue("target")
+}
+
+func (l aliasLookup) Type(name string) (reflect.Type, error) {
+	if name != "Alias" {
+		return nil, fmt.Errorf("not found")
+	}
+	return l.e.Type("int64")
 }
 
 type cop struct {
@@ -729,6 +748,176 @@ func streamEnvConc(o *Out, r *rand.Rand, n int, thorough bool) {
 		waitOrDeadlock(o, &wg, "scopes root > mod > sub; goroutines looping: mod.Addr(zzz), sub.Addr(zzz), sub.Addr(yyy), root.GetEnvFromPath([mod sub]), mod.GetEnvFromPath([sub]), sub.GetEnvFromPath([mod sub]), Define(w) on each of the three scopes, sub.Get(zzz), sub.Set(zzz), sub.Type(int64)")
 		o.Sum.Evaluations++
 		o.Sum.Hist["lock-order-scenario"]++
+	}
+	if on("reentrant") && phase != "" {
+		// (1) lazy loader: the lookup binds the symbol in the scope it is asked through
+		e := env.NewEnv()
+		e.SetExternalLookup(lazyLookup{e})
+		child := e.NewEnv()
+		var wg sync.WaitGroup
+		var bad atomic.Value
+		wg.Add(2)
+		go func() {
+			defer wg.Done()
+			for i := 0; i < 200; i++ {
+				e.Delete("answer")
+				if v, err := e.Get("answer"); err != nil || v != int64(42) {
+					bad.Store(fmt.Sprint("Get(answer) through the lazy loader: ", v, " ", err))
+				}
+				if _, err := e.Type("Answer"); err != nil {
+					bad.Store(fmt.Sprint("Type(Answer) through the lazy loader: ", err))
+				}
+				e.Delete("answer")
+				if _, err := child.Get("answer"); err != nil {
+					bad.Store(fmt.Sprint("child.Get(answer) through the parent's lazy loader: ", err))
+				}
+				e.Delete("answer")
+				if _, err := e.Addr("answer"); err != nil {
+					bad.Store(fmt.Sprint("Addr(answer) through the lazy loader: ", err))
+				}
+			}
+		}()
+		go func() {
+			defer wg.Done()
+			for i := 0; i < 200; i++ {
+				_ = e.Define("w", int64(i))
+				_, _ = e.Get("w")
+			}
+		}()
+		waitOrDeadlock(o, &wg, "scope e with an external lookup that defines what it loads in e (DefineValue / DefineReflectType); goroutine A loops Delete(answer), Get(answer), Type(Answer), child.Get(answer), Addr(answer); goroutine B loops Define(w), Get(w)")
+		if b := bad.Load(); b != nil {
+			o.Fail(Failure{Oracle: "linearizable", Key: "env-lazy-lookup", Input: "a lazy-loading external lookup on a shared scope", Detail: b.(string)})
+		}
+		o.Sum.Evaluations++
+		o.Sum.Hist["reentrant-lazy-loader"]++
+		// (2) alias lookup: read-only, resolves another name through the scope; writers queue on the same scope
+		e2 := env.NewEnv()
+		_ = e2.Define("target", int64(7))
+		e2.SetExternalLookup(aliasLookup{e2})
+		stop := make(chan struct{})
+		var wg2 sync.WaitGroup
+		for k := 0; k < 3; k++ {
+			wg2.Add(2)
+			go func() {
+				defer wg2.Done()
+				for {
+					select {
+					case <-stop:
+						return
+					default:
+						if v, err := e2.Get("alias"); err != nil || v != int64(7) {
+							bad.Store(fmt.Sprint("Get(alias): ", v, " ", err))
+						}
+						_, _ = e2.Type("Alias")
+					}
+				}
+			}()
+			go func(k int) {
+				defer wg2.Done()
+				for i := 0; ; i++ {
+					select {
+					case <-stop:
+						return
+					default:
+						_ = e2.Define(fmt.Sprintf("w%d", k), int64(i))
+					}
+				}
+			}(k)
+		}
+		d := time.Second
+		if thorough {
+			d = 6 * time.Second
+		}
+		time.Sleep(d)
+		close(stop)
+		waitOrDeadlock(o, &wg2, "scope e with a read-only external lookup that resolves alias -> e.GetValue(target); 3 goroutines loop Get(alias), Type(Alias); 3 goroutines loop Define(w_k)")
+		if b := bad.Load(); b != nil {
+			o.Fail(Failure{Oracle: "linearizable", Key: "env-alias-lookup", Input: "a read-only alias lookup on a shared scope", Detail: b.(string)})
+		}
+		o.Sum.Evaluations++
+		o.Sum.Hist["reentrant-alias-lookup"]++
+	}
+	if on("widevalues") && phase != "" {
+		type wide struct{ F [16]int64 }
+		wt := reflect.TypeOf(wide{})
+		mk := func(i int64) reflect.Value {
+			v := reflect.New(wt).Elem()
+			for k := 0; k < 16; k++ {
+				v.Field(0).Index(k).SetInt(i)
+			}
+			return v
+		}
+		uniform := func(x interface{}) (string, bool) {
+			w, ok := x.(wide)
+			if !ok {
+				return fmt.Sprintf("%T", x), false
+			}
+			for k := 1; k < 16; k++ {
+				if w.F[k] != w.F[0] {
+					return fmt.Sprint(w.F), false
+				}
+			}
+			return "", true
+		}
+		e := env.NewEnv()
+		_ = e.DefineValue("w", mk(0))
+		stop := make(chan struct{})
+		var wg sync.WaitGroup
+		var torn atomic.Value
+		wg.Add(1)
+		go func() {
+			defer wg.Done()
+			for i := int64(1); ; i++ {
+				select {
+				case <-stop:
+					return
+				default:
+					_ = e.SetValue("w", mk(i))
+					if i%3 == 0 {
+						_ = e.Set("w", mk(i).Interface())
+						_ = e.DefineValue("w", mk(i))
+					}
+				}
+			}
+		}()
+		for k := 0; k < 3; k++ {
+			wg.Add(1)
+			go func(k int) {
+				defer wg.Done()
+				for {
+					select {
+					case <-stop:
+						return
+					default:
+						var x interface{}
+						var err error
+						if k == 2 {
+							x, err = e.Copy().Get("w")
+						} else {
+							x, err = e.Get("w")
+						}
+						if err != nil {
+							torn.Store("Get(w): " + err.Error())
+						} else if s, ok := uniform(x); !ok {
+							torn.Store("a read of w returned " + s + ": fields of two different sets")
+						}
+					}
+				}
+			}(k)
+		}
+		d := 1500 * time.Millisecond
+		if thorough {
+			d = 8 * time.Second
+		}
+		time.Sleep(d)
+		close(stop)
+		waitOrDeadlock(o, &wg, "widevalues")
+		if b := torn.Load(); b != nil {
+			o.Fail(Failure{Oracle: "linearizable", Key: "env-torn-value", Input: "w holds a struct of 16 int64 with storage of its own; writer: SetValue(w, {i,i,...,i}) for i = 1, 2, ...; readers: Get(w), Copy().Get(w)",
+				Detail: b.(string) + "; no one-at-a-time order of the sets and gets returns that"})
+		}
+		o.Sum.Evaluations++
+		o.Sum.Hist["wide-value-scenario"]++
 	}
 	if on("oddvalues") && phase != "" {
 		type hostRec struct {
